@@ -75,11 +75,12 @@ func discharge(obls []*vc.Obligation, dir string, timeoutS int, all bool) []oblR
 			defer func() { <-sem }()
 			q := o.Query(smt.Prelude)
 			name := fmt.Sprintf("q%04d", i)
-			t := timeoutS
+			var r smt.Result
 			if o.ExpectSat {
-				t = 2
+				r = smt.Quick(q, dir, name, 2)
+			} else {
+				r = smt.Solve(q, dir, name, timeoutS, all)
 			}
-			r := smt.Solve(q, dir, name, t, all && !o.ExpectSat)
 			res[i] = oblResult{o, r}
 		}(i, o)
 	}
